@@ -307,6 +307,9 @@ myth_tls_key_allocator_dealloc(myth_tls_key_allocator_t * s, int key) {
     return (myth_tls_destructor_fun_t)-1;
   }
   myth_tls_destructor_fun_t f = ke->destructor;
+  /* a deleted key has no destructor any more (threads that still hold a
+     value under it must not have it destructed at exit) */
+  ke->destructor = 0;
   while (1) {
     /* try to push the cell to the free list */
     myth_tls_key_entry_t * head = s->free;
